@@ -6,6 +6,12 @@ sys.path.insert(0, V)
 ALL = [f"C{i:02d}" for i in range(1, 19)]
 
 CHECKS = {
+ "C12": dict(cat="model_checking", tech="exhaustive enumeration of (length x frame size x padding) + explicit-state BFS over all frame interleavings of up to 3 CAN IDs on the real IsoTpStateMachine, reference ISO 15765-2 segmenter as oracle",
+   text="Every telegram length 1..4095 (quick: 1..300 + all segment boundaries) x 8 classic/FD frame sizes x 4 padding modes is segmented by an independent reference segmenter and fed to the real reassembler; all interleavings of the frame scripts of 2-3 IDs (SF, FF+1CF, FF+2CF, FF+17CF with sequence-number wrap, two telegrams per ID) with flow-control and foreign-ID frames insertable at every point are explored as a state graph whose canonical state includes the real object's per-ID buffers, with the safety oracle 'reported == sent so far' in every state; both candump text formats and the active decoder's flow-control answers are checked on the same streams.",
+   note="Trusted: the reference segmenter (normal addressing, 12-bit FF length). Not driven: the socket branch of read_telegrams. More than 3 concurrent IDs / more than 3 telegrams per ID are outside the bound.", ref="5/C12"),
+ "C13": dict(cat="fault_enumeration", tech="deviation-bounded exhaustive fault injection (0/1/2 faults at every position) + explicit-state BFS to the fixpoint over a 24-frame alphabet on the real IsoTpStateMachine, justification monitor as oracle",
+   text="Five base streams x every placement of 0, 1 and 2 faults out of 9 kinds (drop, duplicate, swap, truncate, every PCI nibble, every sequence number, stray CF, FC, empty frame), each followed by well-formed probe transfers; plus a BFS over all sequences of a 24-frame alphabet (incl. malformed frames) to the fixpoint of (implementation state, monitor state) with the probes run from every reached state. Oracle: no exception, every reported telegram justified by the delivered history, each first frame yields at most one telegram, probe reassembled exactly once.",
+   note="Trusted: the justification monitor (accepts both ISO reactions to a sequence error). Callback invocations are recorded, not judged. Three or more simultaneous faults are outside the bound.", ref="5/C13"),
  "C16": dict(cat="model_checking", tech="explicit-state BFS over all operation histories of the real NamedItemList (depth 4/5), reference list + name invariants on every state",
    text="Every history of append/insert/extend/remove/pop/clear/copy/copy.copy/deepcopy/pickle operations up to depth 4 (quick) / 5 (thorough) over a 7-item alphabet with equal, same-named, suffixed-name, keyword, digit-leading and method-like short names is executed on the real class; each reached state is compared with a plain list and checked for the name invariants of the property. Exhaustive within the bound; states/transitions are counted by the explorer.",
    note="Trusted: Python list semantics as reference; the alphabet (an item object is never inserted twice; +=, slicing, sort are outside the property). Beyond the depth bound nothing is claimed.", ref="5/C16"),
